@@ -322,9 +322,9 @@ Theorem mon03_owed_copies_resolve : forall c cfg bs st0 now e0 es x0 x1 cfgsx ob
   replay_restore c cfg bs st0 now e0 = Some x0 ->
   replay_entries cfg bs 1 x0 es = (x1, []) ->
   m_fresh m0 -> m_start m0 ->
-  l_all cfgsx objs ops (mon_entry cfgsx objs ops m0 e0) (l0 m0) es = true ->
+  l_all cfgsx objs ops (mon_entry cfgsx objs ops m0 e0) (l0 (old_crs m0)) es = true ->
   let m1 := fold_left (mon_entry cfgsx objs ops) (e0 :: es) m0 in
-  let l1 := l_fold cfgsx objs ops (mon_entry cfgsx objs ops m0 e0) (l0 m0) es in
+  let l1 := l_fold cfgsx objs ops (mon_entry cfgsx objs ops m0 e0) (l0 (old_crs m0)) es in
   map fst (l_cr l1) = m_copies m1 /\
   m_live m1 = map fst (locs (s_pbl (x_sys x1))) /\
   exists alloc oldest init gx, greachable cfg alloc oldest init now (x_sys x1) gx /\
